@@ -158,7 +158,9 @@ FID = {
 
 
 def fn_id(fn):
-    return fn._id if cls_name(fn) == 'GmpFn' else FID[callable_name(fn)]
+    # a primitive outside the table has the identity 0: no table entry prescribes it, so every clause that
+    # names the prescribed primitive fails (instead of the lookup crashing the checker)
+    return fn._id if cls_name(fn) == 'GmpFn' else FID.get(callable_name(fn), 0)
 
 
 # ---------------------------------------------------------------------------
